@@ -95,6 +95,16 @@ def DSIS.meetDS (a b : DSIS) (orders : List (List Nat)) (order : List Nat) : R V
     | [] => pure (.si (SI.empty a.bits))
     | _ => finishSet a.bits parts order
 
+/-- `__floordiv__` on sets: the lifting of `udiv`, whose every per-pair call iterates over its own Python set of partial
+results — one recorded order per pair (in the order of the double loop), one for the result set -/
+def applyEach2o (op : SI → SI → List Nat → R SI) : List (SI × SI) → List (List Nat) → R (List SI)
+  | [], _ => pure []
+  | p :: ps, o :: os => op p.1 p.2 o >>= fun r => applyEach2o op ps os >>= fun rs => pure (r :: rs)
+  | _ :: _, [] => throw .assertion
+
+def DSIS.udivSet (a : DSIS) (bs : List SI) (orders : List (List Nat)) (order : List Nat) : R Val :=
+  applyEach2o SI.udiv (a.sis.flatMap fun s => bs.map fun t => (s, t)) orders >>= fun rs => finishSet a.bits rs order
+
 /-! ### ValueSet -/
 
 /-- `union` / `widen` with an interval operand: every region and the summary interval are combined with it -/
